@@ -286,8 +286,9 @@ func (o *confluence) attribute(c *Ctx, w *Worker, cs *Case, i int, firstOut stri
 		return c.siteName(cs.Steps[i].Only[0])
 	}
 	argv := cs.Steps[0].Argv
-	if res.SchedEvts > 0 {
-		// every map site canonical, only the goroutine schedule seeded
+	{
+		// every map site canonical: what remains seeded is the goroutine schedule, the
+		// select order, the wall clock and the process-wide random generator
 		probe := cloneCase(cs)
 		probe.Steps = []Step{cs.Steps[0], cs.Steps[i]}
 		probe.Steps[0].Files = stepFiles(cs, 0)
@@ -295,7 +296,10 @@ func (o *confluence) attribute(c *Ctx, w *Worker, cs *Case, i int, firstOut stri
 		c.RunStep(w, probe, 0, stage2Budget, false)
 		r2 := c.RunStep(w, probe, 1, stage2Budget, true)
 		if normaliseOut(argv, r2.Stdout) != firstOut || r2.Exit != firstExit {
-			return "goroutine-schedule"
+			if res.SchedEvts > 0 {
+				return "goroutine-schedule"
+			}
+			return "clock-or-random-source"
 		}
 	}
 	for _, s := range res.Sites {
